@@ -77,6 +77,12 @@ Theorem C17_uncovered_term_refused : forall infos download ts te ul,
   get_one_term None infos download ts te ul = None.
 Proof. exact get_one_term_uncovered_refused. Qed.
 
+(* the length check, for every server response: a term that came out of a download has exactly the unpacked length the plan
+   declared for it (otherwise get_one_term reports an error and nothing reaches the writer) *)
+Theorem C17_downloaded_term_has_declared_length : forall infos download ts te ul d,
+  get_one_term None infos download ts te ul = Some d -> lenN d = ul.
+Proof. exact get_one_term_downloaded_has_declared_length. Qed.
+
 Print Assumptions C17_trim_to_term_exact.
 Print Assumptions C17_sequential_writer_exact.
 Print Assumptions C17_parallel_eq_sequential.
@@ -85,3 +91,4 @@ Print Assumptions C17_term_from_fetch_range.
 Print Assumptions C17_get_one_term_exact.
 Print Assumptions C17_inverted_term_refused.
 Print Assumptions C17_uncovered_term_refused.
+Print Assumptions C17_downloaded_term_has_declared_length.
